@@ -227,6 +227,7 @@ func gen(g *common.Gen) {
 			continue
 		}
 		var pubs []pub
+		expiring := false
 		nobj := common.Pick(r, []int{1, 1, 1, 2, 2, 3})
 		names := []string{}
 		for len(names) < nobj {
@@ -237,7 +238,7 @@ func gen(g *common.Gen) {
 			if len(pat) >= 3 {
 				g.Stat("object-with-3plus-versions")
 			}
-			for _, v := range pat {
+			for vi, v := range pat {
 				size := common.Pick(r, boundarySizes)
 				if r.Chance(1, 12) {
 					size = common.Pick(r, bigSizes)
@@ -268,6 +269,12 @@ func gen(g *common.Gen) {
 					rm = fmt.Sprintf(" rm=%s,%d,%d", target, pf, r.Range(1, (size-1)/8000+2))
 					g.Stat("produce-with-remove-inside-transaction")
 				}
+				if vi+1 < len(pat) && rm == "" && r.Chance(1, 3) {
+					// an OLDER version is published with an expiry that passes before the fetches
+					rm = " exp=50"
+					expiring = true
+					g.Stat("produce-older-version-with-expiry")
+				}
 				g.Op("produce name=%s ver=%s size=%d seed=%d split=%s cap=%d%s", nm, v, size, seed, genSplit(r, g, size), capx, rm)
 				seed++
 				pubs = append(pubs, pub{nm, v, size})
@@ -280,6 +287,9 @@ func gen(g *common.Gen) {
 				}
 				g.Stat(fmt.Sprintf("segments-%02d", min((size-1)/8000+1, 12)))
 			}
+		}
+		if expiring {
+			g.Op("wait ms=200")
 		}
 		verComp := func(p pub) string {
 			if p.ver == "now" {
